@@ -220,7 +220,7 @@ def cmd_check(prop, tier, nruns=None, survey=False):
         for s in seeds[:3]:
             rr = engine.run_seed(mod, s, tier)
             samples.append({'seed': s, 'ops': rr.ops[:60],
-                            'outcomes': [e[1] if isinstance(e, (list, tuple)) else e
+                            'outcomes': [e[2] if isinstance(e, (list, tuple)) and len(e) > 2 else e
                                          for e in rr.events[:60]]})
     except Exception as e:      # noqa: BLE001
         samples.append({'error': repr(e)})
